@@ -101,7 +101,9 @@ def run(ctx, prop):
         {"k": "interface", "name": "IChannelD", "base": None, "members": [
             _dm("open", "Opens the CHANNEL on a port.", [_p("in", "uint16", "port"), _p("out", "uint32", "handle")]),
             _dm("close", None, []),
-            _dm("flush", "Flushes the CHANNEL.", [])]}]}]})
+            _dm("flush", "Flushes the CHANNEL.", []),
+            _dm("peers", None, [{"dir": "in", "type": "IStoreD", "arr": 2, "name": "a"}, {"dir": "out", "type": "IStoreD", "arr": 3, "name": "b"}]),
+            _dm("anyobjs", None, [{"dir": "in", "type": "interface", "arr": 2, "name": "a"}, {"dir": "out", "type": "interface", "arr": 2, "name": "b"}])]}]}]})
     for case in progs:
         text = idl.render_file(case["files"][0])
         toks, tail = tokenize(text)
@@ -122,7 +124,7 @@ def run(ctx, prop):
             # comments whose TEXT looks like comment syntax: a block comment ends at the first `*/`
             # whatever it contains, a line comment at the line break. Where the plain `/* c */` is
             # admitted these are admitted too (judged against that, not against the parser alone)
-            kinds = list(kinds) + ["/* a /* b */", "/* // */", "// /* c\n", "/* * / */"]
+            kinds = list(kinds) + ["/* a /* b */", "/* // */", "// /* c\n", "/* * / */", "// c\r", "// c\r\n"]
             for gap in range(len(toks) + 1):
                 plain_ok = None
                 for tr in kinds:
@@ -132,7 +134,7 @@ def run(ctx, prop):
                     if tr == "/* c */":
                         plain_ok = admitted
                     if not admitted:
-                        if plain_ok and tr in ("/* a /* b */", "/* // */", "// /* c\n", "/* * / */"):
+                        if plain_ok and tr in ("/* a /* b */", "/* // */", "// /* c\n", "/* * / */", "// c\r", "// c\r\n"):
                             oracle_fail.append({"case": {"idl": with_trivia(toks, tail, gap, tr)[:600]}, "failures": [
                                 {"error": "an ordinary comment is refused where the plain comment `/* c */` is admitted", "trivia": tr,
                                  "between": list(gap_context(toks, gap))}]})
